@@ -494,4 +494,99 @@ theorem runTape_eq_runSweeps (cfg : Cfg α) (hn : 2 ≤ cfg.n) (ht : TimesOk cfg
     · rw [runTape_finished cfg _ s hu, runSweeps_finished cfg _ s hu]
       simp [expandEvs]
 
+/-! ### The invariant of every single call -/
+
+/-- What holds before every call of `progress` of a run: the stack sizes follow the position,
+the position is legal for the direction, and the orthogonality centre sits on one of the two
+sites about to be minimised. -/
+structure Inv (cfg : Cfg α) (s : St α) : Prop where
+  left : s.left = s.idx + 1
+  right : s.right + s.idx + 1 = cfg.n
+  l2r : s.dir = .l2r → s.centre = s.idx ∧ (s.idx + 3 ≤ cfg.n ∨ (s.idx = 0 ∧ cfg.n = 2))
+  r2l : s.dir = .r2l →
+    (s.centre = s.idx ∨ s.centre = s.idx + 1) ∧ s.idx + 2 ≤ cfg.n ∧ (3 ≤ cfg.n → 1 ≤ s.idx)
+
+theorem Inv.two_le {cfg : Cfg α} {s : St α} (h : Inv cfg s) : s.idx + 2 ≤ cfg.n := by
+  cases hd : s.dir with
+  | l2r => rcases (h.l2r hd).2 with h1 | ⟨h1, h2⟩ <;> omega
+  | r2l => exact (h.r2l hd).2.1
+
+theorem SweepStart.inv {cfg : Cfg α} {s : St α} (h : SweepStart cfg s) (hn : 2 ≤ cfg.n) :
+    Inv cfg s := by
+  obtain ⟨hd, hi, hl, hr, hc⟩ := h
+  refine ⟨by omega, by omega, fun _ => ⟨by omega, by omega⟩, fun h => by rw [hd] at h; cases h⟩
+
+theorem init_sweepStart {cfg : Cfg α} {s : St α} (h : init cfg = some s) :
+    SweepStart cfg s ∧ 2 ≤ cfg.n ∧ s.prevE = none ∧ s.sweepCount = 0 ∧ s.tsIndex = 0 := by
+  unfold init at h
+  split_ifs at h with h2
+  cases ht : cfg.times[1]? with
+  | none => simp [ht] at h
+  | some t =>
+    simp only [ht, Option.some.injEq] at h
+    subst h
+    exact ⟨⟨rfl, rfl, rfl, rfl, rfl⟩, by omega, rfl, rfl, rfl⟩
+
+/-- **Safety of one call.** From any object satisfying `Inv`, a call of `progress`
+(i) minimises the pair at the current position with the centre on one of its two sites and
+`orth_center_right` = "heading right", (ii) can only fail with the `RuntimeError` of
+`sweep_complete` — never an `IndexError` on a bath stack or a factor, never one of the three
+asserts — and (iii) re-establishes `Inv`. -/
+theorem progress_inv (cfg : Cfg α) (s : St α) (e : α) (h : Inv cfg s) (ht : TimesOk cfg) :
+    (s.centre = s.idx ∨ s.centre = s.idx + 1)
+    ∧ (progress cfg s e).evs.head? = some (.min s.idx (decide (s.dir = .l2r)))
+    ∧ ((progress cfg s e).halt = none ∨ (progress cfg s e).halt = some .notConverged)
+    ∧ ((progress cfg s e).halt = none → Inv cfg (progress cfg s e).st) := by
+  have hn := h.two_le
+  have hl : 0 < s.left := by rw [h.left]; omega
+  have hr : 0 < s.right := by have := h.right; omega
+  cases hd : s.dir with
+  | l2r =>
+    obtain ⟨hc, hpos⟩ := h.l2r hd
+    rcases hpos with h3 | ⟨h0, h2⟩
+    · rcases Nat.lt_or_ge (s.idx + 3) cfg.n with hlt | hge
+      · rw [progress_l2r_inner cfg s e hd hl hr hlt]
+        refine ⟨Or.inl hc, by simp, Or.inl rfl, fun _ => ⟨?_, ?_, ?_, ?_⟩⟩
+        · simp [h.left]
+        · have := h.right; simp only; omega
+        · intro _; simp only; exact ⟨trivial, Or.inl (by omega)⟩
+        · intro hh; simp only at hh; rw [hd] at hh; cases hh
+      · rw [progress_l2r_turn cfg s e hd hl hr (by omega)]
+        refine ⟨Or.inl hc, by simp, Or.inl rfl, fun _ => ⟨?_, ?_, ?_, ?_⟩⟩
+        · simp [h.left]
+        · have := h.right; simp only; omega
+        · intro hh; simp only at hh; cases hh
+        · intro _; simp only; exact ⟨Or.inl trivial, by omega, fun _ => by omega⟩
+    · rw [progress_l2r_two cfg s e hd hl hr h0 h2]
+      refine ⟨Or.inl hc, by simp [h0], Or.inl rfl, fun _ => ⟨?_, ?_, ?_, ?_⟩⟩
+      · simp [h.left]
+      · have := h.right; simp only; omega
+      · intro hh; simp only at hh; cases hh
+      · intro _; simp only; exact ⟨Or.inr (by omega), by omega, fun _ => by omega⟩
+  | r2l =>
+    obtain ⟨hc, hle, h1⟩ := h.r2l hd
+    rcases Nat.lt_or_ge 1 s.idx with hgt | hle1
+    · rw [progress_r2l_inner cfg s e hd hl hr (by omega) (by omega)]
+      refine ⟨hc, by simp, Or.inl rfl, fun _ => ⟨?_, ?_, ?_, ?_⟩⟩
+      · simp only; rw [h.left]; omega
+      · have := h.right; simp only; omega
+      · intro hh; simp only at hh; rw [hd] at hh; cases hh
+      · intro _; simp only; exact ⟨Or.inr (by omega), by omega, fun _ => by omega⟩
+    · rw [progress_r2l_last cfg s e hd hl hr hle1 (by omega)]
+      have hs0 : SweepStart cfg ({ s with idx := 0, left := 1, right := cfg.n - 1, centre := 0, dir := .l2r } : St α) :=
+        ⟨rfl, rfl, rfl, rfl, rfl⟩
+      have heq : sweepEndSt s e = afterSweep ({ s with idx := 0, left := 1, right := cfg.n - 1, centre := 0, dir := .l2r } : St α) (some e) := by
+        have := h.right
+        apply St.ext' <;> simp [sweepEndSt, afterSweep, h.left] <;> omega
+      have hss : sweepComplete cfg (sweepEndSt s e) = sweepStep cfg ({ s with idx := 0, left := 1, right := cfg.n - 1, centre := 0, dir := .l2r } : St α) e := by
+        rw [heq]; rfl
+      rw [hss]
+      refine ⟨hc, by simp, ?_, ?_⟩
+      · rcases sweepStep_cases cfg _ e hs0 ht with ⟨_, hh⟩ | ⟨_, _, hh⟩ | ⟨_, _, _, hh⟩
+        · left; rw [hh]
+        · left; rw [hh]
+        · right; exact hh
+      · intro hnone
+        exact (sweepStart_after cfg _ e hs0 ht hnone).inv (by omega)
+
 end EmuVerif.Dmrg
